@@ -13,9 +13,15 @@ import (
 	"fmt"
 	"net"
 	"regexp"
+	"sort"
 	"strings"
 
 	"github.com/refraction-networking/conjure/internal/vlib"
+	"github.com/refraction-networking/conjure/pkg/core"
+	"github.com/refraction-networking/conjure/pkg/station/log"
+	"github.com/refraction-networking/conjure/pkg/transports/wrapping/min"
+	pb "github.com/refraction-networking/conjure/proto"
+	"google.golang.org/protobuf/proto"
 )
 
 // ---------------------------------------------------------------------------------------------
@@ -386,11 +392,14 @@ func c19EnumeratedRelConfs(each func(c c19RelConf, what string)) {
 // enforcement by sampling, on a parsed configuration
 
 type c19Enforce struct {
-	rc   *RegConfig
-	raw  *RegConfig // as decoded (the harness's own decode of the file)
-	fail func(sig, what string)
-	out  *vlib.Out
-	pats []*regexp.Regexp // the file's patterns, compiled by the harness
+	rc     *RegConfig
+	raw    *RegConfig // as decoded (the harness's own decode of the file)
+	fail   func(sig, what string)
+	out    *vlib.Out
+	pats   []*regexp.Regexp // the file's patterns, compiled by the harness
+	logger *log.Logger
+	ifaces []*net.IPNet
+	seen   map[string]bool // policies whose ingest-level run was done already
 }
 
 func (en *c19Enforce) literalMatchesPattern(text string) bool {
@@ -509,6 +518,280 @@ func (en *c19Enforce) run() {
 			}
 		}
 	}
+	en.ingestLevel()
+}
+
+// ---------------------------------------------------------------------------------------------
+// enforcement at the OUTCOME of the ingest, for every registration source
+
+// c19Sources: every value of the RegistrationSource enum and values outside it
+func c19Sources() []int32 {
+	var l []int32
+	maxV := int32(0)
+	for v := range pb.RegistrationSource_name {
+		l = append(l, v)
+		if v > maxV {
+			maxV = v
+		}
+	}
+	sort.Slice(l, func(i, j int) bool { return l[i] < l[j] })
+	return append(l, maxV+1, 99, -1)
+}
+
+// c19Ingester takes registrations through the real ValidateRegistration + ingestRegistration of a manager
+// built around a parsed configuration, and reports whether they became connectable.
+type c19Ingester struct {
+	rm     *RegistrationManager
+	secret uint64
+}
+
+func newC19Ingester(rc *RegConfig, logger *log.Logger) *c19Ingester {
+	rm := &RegistrationManager{RegConfig: rc, RegistrationStats: newRegistrationStats(), Logger: logger, registeredDecoys: NewRegisteredDecoys()}
+	rm.registeredDecoys.transports[pb.TransportType_Min] = min.Transport{}
+	rm.registeredDecoys.registerForDetector = func(d *DecoyRegistration) {}
+	rm.registeredDecoys.updateInDetector = func(d *DecoyRegistration) {}
+	return &c19Ingester{rm: rm}
+}
+
+// ingest: one fresh registration (own secret) from source src with the given phantom and covert; the
+// registration says it was scanned by the station that shared it (no liveness probe of the phantom).
+// connectable: it is tracked and valid, or a connection to its phantom would find it. panicked != "": the ingest panicked.
+func (g *c19Ingester) ingest(src int32, phantom net.IP, covert string) (connectable bool, panicked string) {
+	g.secret++
+	sec := make([]byte, 32)
+	for i := 0; i < 8; i++ {
+		sec[i] = byte(g.secret >> (8 * i))
+	}
+	sec[31] = 0x19
+	s := pb.RegistrationSource(src)
+	var tp Transport = min.Transport{}
+	reg := &DecoyRegistration{PhantomIp: phantom, PhantomPort: 443, Keys: &core.ConjureSharedKeys{SharedSecret: sec}, Transport: pb.TransportType_Min,
+		TransportPtr: &tp, RegistrationSource: &s, Covert: covert, Flags: &pb.RegistrationFlags{Prescanned: proto.Bool(true)}, DecoyListVersion: 7}
+	// sharing with peer stations is not part of this observation
+	share := g.rm.RegConfig.EnableShareOverAPI
+	g.rm.RegConfig.EnableShareOverAPI = false
+	defer func() {
+		g.rm.RegConfig.EnableShareOverAPI = share
+		if r := recover(); r != nil {
+			panicked = fmt.Sprint(r)
+		}
+	}()
+	g.rm.ingestRegistration(reg)
+	if st := g.rm.registeredDecoys.RegistrationExists(reg); st != nil && st.Valid {
+		connectable = true
+	}
+	if len(g.rm.GetRegistrations(phantom)) > 0 {
+		connectable = true
+	}
+	// keep the maps small
+	g.rm.registeredDecoys = NewRegisteredDecoys()
+	g.rm.registeredDecoys.transports[pb.TransportType_Min] = min.Transport{}
+	g.rm.registeredDecoys.registerForDetector = func(d *DecoyRegistration) {}
+	g.rm.registeredDecoys.updateInDetector = func(d *DecoyRegistration) {}
+	return connectable, panicked
+}
+
+// permittedCovert / permittedPhantom: an address the configuration (as the harness reads the file) permits
+func (en *c19Enforce) permittedCovert() string {
+	var block, allow []*net.IPNet
+	for _, e := range en.raw.CovertBlocklistSubnets {
+		if _, n, err := net.ParseCIDR(strings.TrimSpace(e)); err == nil {
+			block = append(block, n)
+		}
+	}
+	if en.raw.CovertBlocklistPublicAddrs {
+		block = append(block, en.ifaces...)
+	}
+	for _, e := range en.raw.CovertAllowlistSubnets {
+		if _, n, err := net.ParseCIDR(strings.TrimSpace(e)); err == nil {
+			allow = append(allow, n)
+		}
+	}
+	cands := []net.IP{net.ParseIP("93.184.216.34"), net.ParseIP("203.0.113.250"), net.ParseIP("2606:2800:220:1::1"), net.ParseIP("198.51.100.1"), net.ParseIP("8.8.4.4"), net.ParseIP("100.64.1.1")}
+	for _, n := range allow {
+		cands = append(cands, c19Samples(n, "covert")...)
+	}
+	in := func(l []*net.IPNet, ip net.IP) bool {
+		for _, n := range l {
+			if n.Contains(ip) {
+				return true
+			}
+		}
+		return false
+	}
+	for _, ip := range cands {
+		if ip.IsUnspecified() || en.literalMatchesPattern(ip.String()) {
+			continue
+		}
+		if (len(allow) > 0 && in(allow, ip)) || (len(allow) == 0 && !in(block, ip)) {
+			return net.JoinHostPort(ip.String(), "443")
+		}
+	}
+	return ""
+}
+
+func (en *c19Enforce) permittedPhantom() net.IP {
+	var nets []*net.IPNet
+	for _, e := range en.raw.PhantomBlocklist {
+		if _, n, err := net.ParseCIDR(strings.TrimSpace(e)); err == nil {
+			nets = append(nets, n)
+		}
+	}
+	for _, c := range []string{"192.0.2.9", "192.122.190.77", "2001:48a8:687f:1::9", "198.18.200.9", "100.127.3.9"} {
+		ip := net.ParseIP(c)
+		ok := true
+		for _, n := range nets {
+			if n.Contains(ip) {
+				ok = false
+			}
+		}
+		if ok {
+			return ip
+		}
+	}
+	return nil
+}
+
+// ingestLevel: "enforced" one level up — no registration from ANY source whose phantom lies inside a
+// phantom_blocklist entry, or whose covert address policy forbids, becomes connectable.
+func (en *c19Enforce) ingestLevel() {
+	raw := en.raw
+	if len(raw.PhantomBlocklist) == 0 && len(raw.CovertBlocklistSubnets) == 0 && len(raw.CovertAllowlistSubnets) == 0 {
+		return
+	}
+	// the outcome depends on the policy keys only: one run per distinct policy of this process
+	key := fmt.Sprintf("%q|%q|%q|%q|%v", raw.CovertBlocklistSubnets, raw.CovertAllowlistSubnets, raw.PhantomBlocklist, raw.CovertBlocklistDomains, raw.CovertBlocklistPublicAddrs)
+	if en.seen != nil {
+		if en.seen[key] {
+			return
+		}
+		en.seen[key] = true
+	}
+	g := newC19Ingester(en.rc, en.logger)
+	sources := c19Sources()
+	admittedBlocked := map[int32]bool{}
+	covertOK := en.permittedCovert()
+	phantomOK := en.permittedPhantom()
+	stride := func(n int) int {
+		if n > 40 {
+			return n / 20
+		}
+		return 1
+	}
+	run := func(src int32, phantom net.IP, covert string, sig, what string) (connectable bool) {
+		en.out.Checked()
+		c, p := g.ingest(src, phantom, covert)
+		if p != "" {
+			en.fail("C19:ingest-panic", fmt.Sprintf("ingestRegistration panicked for a registration from source %d (%s) with phantom %s, covert %q: %s", src, pb.RegistrationSource(src), phantom, covert, p))
+			return false
+		}
+		if c && sig != "" {
+			en.fail(sig, fmt.Sprintf("%s: a registration from source %d (%s) with phantom %s and covert %q became connectable", what, src, pb.RegistrationSource(src), phantom, covert))
+		}
+		return c
+	}
+	if covertOK != "" {
+		// every phantom_blocklist entry x sampled addresses x every source (the entries are IPv4 and IPv6)
+		st := stride(len(raw.PhantomBlocklist))
+		for i, e := range raw.PhantomBlocklist {
+			if i%st != 0 {
+				continue
+			}
+			_, n, err := net.ParseCIDR(strings.TrimSpace(e))
+			if err != nil {
+				continue
+			}
+			samples := c19Samples(n, e)
+			if len(samples) > 3 {
+				samples = []net.IP{samples[0], samples[2], samples[len(samples)-1]}
+			}
+			for _, ip := range samples {
+				for _, src := range sources {
+					if run(src, ip, covertOK, "C19:phantom-entry-not-enforced-for-source", fmt.Sprintf("phantom_blocklist entry %q is not enforced", e)) {
+						admittedBlocked[src] = true
+					}
+					en.out.Count(fmt.Sprintf("ingest:phantom-blocked:source=%d", src))
+				}
+			}
+		}
+		if len(raw.PhantomBlocklist) > 0 {
+			// one correspondence case per source: were all the sampled blocklisted phantoms refused
+			for _, src := range sources {
+				if src >= 0 {
+					en.modelOutcome(fmt.Sprintf("ingestsrc|%d|1", src), admittedBlocked[src])
+				}
+			}
+		}
+		// the other direction, for the correspondence only: a phantom outside every entry is admitted from every source
+		if phantomOK != nil {
+			for _, src := range sources {
+				c := run(src, phantomOK, covertOK, "", "")
+				if src >= 0 {
+					en.modelOutcome(fmt.Sprintf("ingestsrc|%d|0", src), c)
+				}
+			}
+		}
+	} else {
+		en.out.Count("ingest:no-permitted-covert")
+	}
+	if phantomOK == nil {
+		en.out.Count("ingest:no-permitted-phantom")
+		return
+	}
+	// covert entries x every source: admission must not depend on where the registration came from
+	if len(raw.CovertAllowlistSubnets) == 0 {
+		st := stride(len(raw.CovertBlocklistSubnets))
+		for i, e := range raw.CovertBlocklistSubnets {
+			if i%st != 0 {
+				continue
+			}
+			_, n, err := net.ParseCIDR(strings.TrimSpace(e))
+			if err != nil {
+				continue
+			}
+			samples := c19Samples(n, e)
+			if len(samples) > 2 {
+				samples = []net.IP{samples[0], samples[len(samples)-1]}
+			}
+			for _, ip := range samples {
+				for _, src := range sources {
+					run(src, phantomOK, net.JoinHostPort(ip.String(), "443"), "C19:covert-entry-not-enforced-for-source", fmt.Sprintf("covert_blocklist_subnets entry %q is not enforced", e))
+				}
+			}
+		}
+	} else {
+		var nets []*net.IPNet
+		for _, e := range raw.CovertAllowlistSubnets {
+			if _, n, err := net.ParseCIDR(strings.TrimSpace(e)); err == nil {
+				nets = append(nets, n)
+			}
+		}
+		probes := []net.IP{net.ParseIP("203.0.113.250")}
+		for i, n := range nets {
+			if i < 6 {
+				probes = append(probes, c19Outside(n)...)
+			}
+		}
+		for _, ip := range probes {
+			inside := false
+			for _, n := range nets {
+				if n.Contains(ip) {
+					inside = true
+				}
+			}
+			if inside {
+				continue
+			}
+			for _, src := range sources {
+				run(src, phantomOK, net.JoinHostPort(ip.String(), "443"), "C19:covert-entry-not-enforced-for-source", "the allowlist is not enforced (address outside every covert_allowlist_subnets entry)")
+			}
+		}
+	}
+}
+
+// modelOutcome: a correspondence case whose implementation side is the observed outcome
+func (en *c19Enforce) modelOutcome(line string, connectable bool) {
+	en.out.Case(line, map[bool]string{true: "admitted", false: "refused"}[connectable], connectable)
 }
 
 // loadProbes: the probe set of one accepted configuration — samples of every entry and their neighbours
